@@ -50,6 +50,11 @@ type ErrUndecided struct {
 
 func (e *ErrUndecided) Error() string { return e.Msg }
 
+// ErrExit ends the interpretation: the program called os.Exit.
+type ErrExit struct{ Code int64 }
+
+func (e *ErrExit) Error() string { return fmt.Sprintf("os.Exit(%d)", e.Code) }
+
 func undecided(pos token.Pos, format string, a ...any) error {
 	return &ErrUndecided{Pos: pos, Msg: fmt.Sprintf(format, a...)}
 }
@@ -880,6 +885,13 @@ func (m *Machine) store(fr *frame, lhs ast.Expr, v Value) error {
 		}
 		return undecided(l.Pos(), "index store into %s", Show(x))
 	case *ast.SelectorExpr:
+		if _, isSel := info.Selections[l]; !isSel {
+			// a qualified identifier: a package-level variable of another package
+			if o, ok := info.ObjectOf(l.Sel).(*types.Var); ok && o.Pkg() != nil {
+				m.ExtVars[o.Pkg().Path()+"."+o.Name()] = v
+				return nil
+			}
+		}
 		x, err := m.eval(fr, l.X)
 		if err != nil {
 			return err
@@ -889,6 +901,11 @@ func (m *Machine) store(fr *frame, lhs ast.Expr, v Value) error {
 		case *Ptr:
 			st = x.Elem
 		case *Struct:
+			// a struct reached through a field or an element is the stored struct itself, not a copy
+			switch ast.Unparen(l.X).(type) {
+			case *ast.SelectorExpr, *ast.IndexExpr:
+				st = x
+			}
 			// store into a field of a local struct variable
 			if id, ok := ast.Unparen(l.X).(*ast.Ident); ok {
 				if p := fr.lookup(info.ObjectOf(id)); p != nil {
@@ -897,6 +914,13 @@ func (m *Machine) store(fr *frame, lhs ast.Expr, v Value) error {
 					}
 				}
 			}
+		}
+		if o, ok := x.(*Opaque); ok && st == nil {
+			if o.Attrs == nil {
+				o.Attrs = map[string]Value{}
+			}
+			o.Attrs[l.Sel.Name] = v
+			return nil
 		}
 		if st == nil {
 			return undecided(l.Pos(), "field store through %s", Show(x))
@@ -913,6 +937,10 @@ func (m *Machine) store(fr *frame, lhs ast.Expr, v Value) error {
 				p.Elem.Fields = s.Copy().Fields
 				return nil
 			}
+		}
+		if r, ok := x.(*Ref); ok {
+			r.Set(v)
+			return nil
 		}
 		return undecided(l.Pos(), "store through pointer %s", Show(x))
 	}
@@ -1017,6 +1045,9 @@ func (m *Machine) eval(fr *frame, e ast.Expr) (Value, error) {
 		if p, ok := x.(*Ptr); ok {
 			return p.Elem.Copy(), nil
 		}
+		if r, ok := x.(*Ref); ok {
+			return r.Get(), nil
+		}
 		return nil, undecided(e.Pos(), "dereference of %s", Show(x))
 	case *ast.UnaryExpr:
 		if e.Op == token.AND {
@@ -1042,7 +1073,7 @@ func (m *Machine) eval(fr *frame, e ast.Expr) (Value, error) {
 					}
 				}
 			}
-			switch ast.Unparen(e.X).(type) {
+			switch x := ast.Unparen(e.X).(type) {
 			case *ast.IndexExpr, *ast.SelectorExpr:
 				// the address of a struct held in a slice element or a field aliases that struct
 				v, err := m.eval(fr, e.X)
@@ -1054,6 +1085,30 @@ func (m *Machine) eval(fr *frame, e ast.Expr) (Value, error) {
 					return &Ptr{Elem: s}, nil
 				case *Opaque:
 					return s, nil
+				}
+				// the address of a field that holds a plain value
+				if sel, ok := x.(*ast.SelectorExpr); ok {
+					if _, isField := info.Selections[sel]; isField {
+						owner, err := m.eval(fr, sel.X)
+						if err != nil {
+							return nil, err
+						}
+						var st *Struct
+						switch o := owner.(type) {
+						case *Struct:
+							st = o
+						case *Ptr:
+							st = o.Elem
+						}
+						if st != nil {
+							name := sel.Sel.Name
+							return &Ref{ID: types.ExprString(sel), Get: func() Value { return st.Fields[name] }, Set: func(v Value) { st.Fields[name] = v }}, nil
+						}
+					}
+				}
+			case *ast.Ident:
+				if p := fr.lookup(info.ObjectOf(x)); p != nil {
+					return &Ref{ID: x.Name, Get: func() Value { return *p }, Set: func(v Value) { *p = v }}, nil
 				}
 			}
 			return nil, undecided(e.Pos(), "address-of outside the analysed vocabulary")
@@ -1316,6 +1371,9 @@ func (m *Machine) selectPath(pos token.Pos, x Value, sel *types.Selection) (Valu
 		case *Opaque:
 			if sel.Kind() != types.FieldVal {
 				return &FuncV{Fn: sel.Obj().(*types.Func), Recv: c}, nil
+			}
+			if v, ok := c.Attrs[sel.Obj().Name()]; ok && last {
+				return v, nil
 			}
 			return nil, undecided(pos, "field of opaque %s", Show(cur))
 		default:
